@@ -132,7 +132,7 @@ class _Labelled(str):
 
 # ------------------------------------------------------------------ E2: kid histories
 FIXTURES = ["ec-pem-nokid", "ec-dict-explicit-kid", "oct-bytes-nokid", "rsa-dict-param-kid", "okp-native-nokid", "ec-lz-pem-nokid", "ec-dict-empty-kid", "oct-param-empty-kid",
-            "rsa-d-only-dict-kid", "ec-application-subclass-requiring-use"]
+            "rsa-d-only-dict-kid", "ec-application-subclass-requiring-use", "okp-dict-kid-in-decomposed-form"]
 
 
 class KidModel:
@@ -194,6 +194,11 @@ class KidModel:
             st["key"] = StrictECKey.import_key({**jwk, "use": "sig"})
             st["params"] = None
             st["explicit"] = None
+        elif f == "okp-dict-kid-in-decomposed-form":
+            jwk = A.okp_jwk("Ed25519", 8)
+            st["key"] = A.jkey({**jwk, "kid": "cle\u0301-2024-\u212b"}, "dict")
+            st["params"] = None
+            st["explicit"] = "cle\u0301-2024-\u212b"
         elif f == "rsa-dict-param-kid":
             jwk = A.rsa_jwk("rsa_2048_a")
             st["params"] = {"kid": "param-kid"}
